@@ -268,6 +268,10 @@ func init() {
 			fprobes = append(fprobes, strings.TrimSpace("($f "+call)+")")
 		}
 		fprobes = append(fprobes, "(make-load-form '$f)")
+		if strings.HasPrefix(ld.feat, "doc") {
+			// next to the text comparison: what (documentation) answers
+			fprobes = append(fprobes, "(documentation '$f 'function)")
+		}
 		addCase(&lfCase{label: "defun:" + ld.feat, kind: "defun", feat: ld.feat, support: sup,
 			setup: "(defun $f " + ld.args + " " + ld.body + ")", defs: []string{"(make-load-form '$f)"}, probes: fprobes})
 	}
@@ -324,6 +328,9 @@ func init() {
 			defs = []string{"(make-load-form '$f)"}
 		}
 		probes = append(probes, "(make-load-form '$f)")
+		if strings.HasPrefix(feat, "documentation") {
+			probes = append(probes, "(documentation '$f 'type)")
+		}
 		addCase(&lfCase{label: "flavor:" + feat, kind: "flavor", feat: feat, setup: setup, defs: defs, probes: probes})
 	}
 	flv("plain", `(defflavor $f (a b) ())`, nil, "(c19-instance-dump (make-instance '$f))")
@@ -434,6 +441,9 @@ func init() {
 			defs = []string{"(make-load-form '$c)"}
 		}
 		probes = append(probes, "(make-load-form '$c)")
+		if strings.HasPrefix(feat, "documentation") {
+			probes = append(probes, "(documentation '$c 'type)")
+		}
 		addCase(&lfCase{label: "class:" + feat, kind: "class", feat: feat, setup: setup, defs: defs, probes: probes})
 	}
 	cls("plain", `(defclass $c () (a b))`, nil, "(c19-instance-dump (make-instance '$c))")
@@ -466,6 +476,9 @@ func init() {
 	// --------------------------------------------------------------- generics
 	gen := func(feat, support, setup string, probes ...string) {
 		probes = append(probes, "(make-load-form '$g)")
+		if feat == "documentation" || feat == "long-bodies" || feat == "method-doc" {
+			probes = append(probes, "(documentation '$g 'function)")
+		}
 		addCase(&lfCase{label: "generic:" + feat, kind: "generic", feat: feat, support: support, setup: setup,
 			defs: []string{"(make-load-form '$g)"}, probes: probes})
 	}
@@ -517,4 +530,16 @@ func enumerateLF(tier string, emit func(string)) {
 		}
 		emit("lf|" + c.label)
 	}
+	enumerateInhLF(tier, emit)
+}
+
+// lfCaseOf: table cases by label, inheritance worlds (inherit.go) built on demand.
+func lfCaseOf(label string) *lfCase {
+	if c := lfIndex[label]; c != nil {
+		return c
+	}
+	if strings.HasPrefix(label, "inh:") {
+		return inhCase(label)
+	}
+	return nil
 }
